@@ -103,7 +103,7 @@ pub mod rand {
     impl SystemRandom {
         pub fn new() -> SystemRandom { SystemRandom { x: 0 } }
         #[verifier::external_body]
-        pub fn fill(&self, dest: &mut [u8; 12]) -> (r: core::result::Result<(), Unspecified>)
+        pub fn fill<const N: usize>(&self, dest: &mut [u8; N]) -> (r: core::result::Result<(), Unspecified>)
             ensures r is Ok ==> super::ringspec::rng_drawn(final(dest)@)
         { unimplemented!() }
     }
